@@ -107,9 +107,20 @@ def _zero_block_case(rng):
             "row_ins": row_ins, "col_ins": col_ins, "mode": "zeroblock-" + which}
 
 
+CONSTRUCTED = ("rank1", "zeroblock-rows", "zeroblock-cols", "zeroblock-both")
+
+
 def gen_case(rng):
     case = _gen_case(rng)
     case["scale"] = su.pick_scale(rng, 0.2)
+    # weight regimes; tables built from chosen weights keep their structure only under a uniform scale
+    # (no mixed scales here: count - expected cancels to ~1e-6 relative when a row weighs 2^-34 of the table)
+    allowed = ("tiny",) if case["mode"] in CONSTRUCTED else ("tiny", "small")
+    regime = su.pick_regime(rng, case["weighted"], p_each=0.1, allowed=allowed)
+    if regime:
+        vars_, survey = su.load_case(case)
+        case["survey"] = gen.survey_to_json(su.apply_regime(rng, vars_, survey, regime))
+    case["wregime"] = regime
     return case
 
 
@@ -231,6 +242,8 @@ def evaluate(case, louts, ctx):
     findings = []
     ctx.count("kinds:" + su.kinds_key(vars_))
     ctx.count("mode:" + case.get("mode", "?"))
+    if case.get("wregime"):
+        ctx.count("weight_regime:" + case["wregime"])
     resp = su.scale_response(gen.cube_response(vars_, survey, case["weighted"]), case.get("scale", 1))
     if case.get("scale", 1) > 1:
         ctx.count("large_sample_cases:%s" % ("weighted" if case["weighted"] else "unweighted"))
